@@ -2,7 +2,9 @@
 
 Cases are (a) one parameter built from dict data, a sequence of update() calls and a
 list of query dates, observed after construction and after every update, and (b) a
-parameter tree (nodes, leaves, scales) evaluated at a list of dates.  The implementation
+parameter tree (nodes, leaves, scales) evaluated at a list of dates, and (c) a LIVE tree
+read at a list of dates, edited through its nodes (node.child...update(...)) and read again
+at the same dates, any number of times: an evaluation after an edit must show the edit.  The implementation
 driver uses the real Parameter / ParameterNode / ParameterScale classes.  The oracle
 evaluates the statement of the property on the implementation's answers with datetime
 dates and naive loops: value at a date = value of the latest entry on or before it;
@@ -41,9 +43,13 @@ RULE = ("(a) histories of 0-8 dated entries (null values, 'expected' placeholder
         "before-first and after-last all occur), plus ill-formed calls (period together with start, no start, "
         "eternity, stop before start); queried at every entry date and update boundary +-1 day after every "
         "step; (b) trees of nodes / leaves / scales whose members start at different dates, evaluated at every "
-        "date of the tree +-1 day.  A case is non-trivial when construction succeeds and at least one update "
+        "date of the tree +-1 day; (c) such a tree read at <= 12 of those dates (always including a date inside "
+        "every later update's span), then 1-4 rounds of [1-2 update() calls on leaves reached through the nodes "
+        "(children by name, scale brackets by position and field), read again at the same dates through "
+        "root(date) / root.get_at_instant(Instant)]: values and membership after an edit are compared with the model "
+        "and with the span statement.  A case is non-trivial when construction succeeds and at least one update "
         "succeeds (a) or the tree has a member that is undefined at some queried date and defined at another "
-        "(b); distinct as the whole JSON case")
+        "(b) or some read differs from the read before it (c); distinct as the whole JSON case")
 TRUSTED = ["ISO date strings of four-digit years are ordered like their proleptic Gregorian ordinals (the code "
            "compares strings, the model compares ordinals); re-checked on every generated pair of dates by the harness",
            "taxscales add_bracket is modelled by Param.add_bracket (sorted insertion, equal thresholds merged) and "
@@ -140,8 +146,29 @@ def ctree(t):
     return "(TNode " + clist([f"({cstr(n)}, {ctree(c)})" for n, c in t["children"]]) + ")"
 
 
+FIELD_COQ = {"threshold": "FThreshold", "rate": "FRate", "amount": "FAmount", "average_rate": "FAverageRate"}
+
+
+def cpath(path):
+    out = []
+    for st in path:
+        if st[0] == "c":
+            out.append(f"(PChild {cstr(st[1])})")
+        else:
+            out.append(f"(PBracket {int(st[1])}%nat {FIELD_COQ[st[2]]})")
+    return clist(out)
+
+
+def ctop(op):
+    if op["o"] == "read":
+        return "TRead"
+    return f"(TUpd {cpath(op['path'])} {cupd(op['u'])})"
+
+
 def coq_case(c):
     qs = clist([cz(O(q)) for q in c["queries"]])
+    if c["op"] == "treeops":
+        return f"(KTreeOps {ctree(c['tree'])} {clist([ctop(o) for o in c['ops']])} {qs})"
     if c["op"] == "param":
         return (f"(KParam {cbool(c['wrapped'])} {clist([centry(e) for e in c['entries']])} "
                 f"{clist([cupd(u) for u in c['ups']])} {qs})")
@@ -237,7 +264,51 @@ def view(x):
     return v4(x)
 
 
+def update_kwargs(u):
+    kw = {"value": u["v"]}
+    if u["period"] is not None:
+        kw["period"] = mk_period(u["period"])
+    if u["start"] is not None:
+        kw["start"] = mk_instant(u["start"])
+    if u["stop"] is not None:
+        kw["stop"] = mk_instant(u["stop"])
+    return kw
+
+
+def leaf_at(root, path):
+    """The Parameter object reached through the nodes, as user code reaches it."""
+    x = root
+    for st in path:
+        if st[0] == "c":
+            x = getattr(x, st[1]) if len(path) % 2 else x.children[st[1]]
+        else:
+            x = x.brackets[st[1]].children[st[2]]
+    return x
+
+
+def run_treeops(c):
+    root = ParameterNode("root", data=tree_data(c["tree"]))
+    out = []
+    for k, op in enumerate(c["ops"]):
+        if op["o"] == "read":
+            row = []
+            for j, q in enumerate(c["queries"]):
+                at = root(q) if (j + k) % 2 else root.get_at_instant(mk_instant(q))
+                row.append(view(at))
+            out.append(row)
+            continue
+        try:
+            leaf_at(root, op["path"]).update(**update_kwargs(op["u"]))
+        except Exception as e:  # noqa: BLE001 - a refused update is an observation
+            out.append(Err(errkind(e), f"{type(e).__name__}: {e}"[:200]))
+            continue
+        out.append("ok")
+    return out
+
+
 def run_impl(c):
+    if c["op"] == "treeops":
+        return run_treeops(c)
     if c["op"] == "param":
         p = Parameter("p", param_data(c["entries"], c["wrapped"]))
         out = [snapshot(p, c["queries"], 0)]
@@ -380,23 +451,36 @@ def naive_view(t, d):
     return ("scale", t)
 
 
-def compare_view(t, d, got, path):
+def leaf_value(t, key, d, ov):
+    """Value of a leaf at d: its latest entry on or before d, overridden by every later update whose span
+    holds d ([ov]: path -> list of (first day, last day or None, value x4), oldest first)."""
+    val = naive_value(t["entries"], d)
+    if ov:
+        for s, e, v in ov.get(key, ()):
+            if s <= d and (e is None or d <= e):
+                val = v
+    return val
+
+
+def compare_view(t, d, got, path, key=(), ov=None):
     """None or a message: does the at-instant object [got] expose exactly what is defined at d?"""
     if t["t"] == "param":
-        exp = naive_value(t["entries"], d)
+        exp = leaf_value(t, key, d, ov)
         if got != exp:
-            return f"node: {path} at {d} is {got} (x4), its latest entry says {exp} (x4)"
+            return (f"node: {path} at {d} is {got} (x4), its latest entry" +
+                    (" and the updates made since say " if ov and ov.get(key) else " says ") + f"{exp} (x4)")
         return None
     if t["t"] == "node":
         if not (isinstance(got, list) and got and got[0] == "node"):
             return f"node: {path} at {d} is not a node: {got}"
-        exp_names = [n for n, c in t["children"] if c["t"] != "param" or naive_value(c["entries"], d) is not None]
+        exp_names = [n for n, c in t["children"]
+                     if c["t"] != "param" or leaf_value(c, key + (("c", n),), d, ov) is not None]
         got_names = [n for n, _ in got[1]]
         if got_names != exp_names:
             return f"node: {path} at {d} exposes {got_names}, the members defined at that date are {exp_names}"
         sub = dict((n, c) for n, c in t["children"])
         for n, g in got[1]:
-            m = compare_view(sub[n], d, g, path + "." + n)
+            m = compare_view(sub[n], d, g, path + "." + n, key + (("c", n),), ov)
             if m:
                 return m
         return None
@@ -405,9 +489,9 @@ def compare_view(t, d, got, path):
         return f"scale: {path} at {d} is not a scale: {got}"
     field = {0: "amount", 1: "amount", 2: "average_rate", 3: "rate"}[got[1]]
     acc = {}
-    for b in t["brackets"]:
-        th = None if b.get("threshold") is None else naive_value(b["threshold"]["entries"], d)
-        x = None if b.get(field) is None else naive_value(b[field]["entries"], d)
+    for i, b in enumerate(t["brackets"]):
+        th = None if b.get("threshold") is None else leaf_value(b["threshold"], key + (("b", i, "threshold"),), d, ov)
+        x = None if b.get(field) is None else leaf_value(b[field], key + (("b", i, field),), d, ov)
         if th is not None and x is not None:
             acc[th] = acc.get(th, 0) + x
     exp = [[k, acc[k]] for k in sorted(acc)]
@@ -417,7 +501,43 @@ def compare_view(t, d, got, path):
     return None
 
 
+def path_key(path):
+    return tuple(tuple(st) for st in path)
+
+
+def oracle_treeops(c, o):
+    if isinstance(o, Err):
+        return f"node: building / evaluating a well-formed tree raised {o.kind} ({o.msg})"
+    ov = {}
+    nupd = 0
+    for n, (op, step) in enumerate(zip(c["ops"], o)):
+        if op["o"] == "upd":
+            u = op["u"]
+            kind = update_kind(u)
+            if kind in ("mixed", "nostart", "eternity"):
+                if not isinstance(step, Err):
+                    return None                    # accepted an ill-formed call: nothing is claimed from here on
+                continue
+            s, e = update_span(u)
+            if e is not None and e < s:
+                return None                        # not a date range: nothing is claimed
+            if isinstance(step, Err):
+                return f"update: step {n} {op} refused with {step.kind} ({step.msg})"
+            ov.setdefault(path_key(op["path"]), []).append((s, e, v4(u["v"])))
+            nupd += 1
+            continue
+        if isinstance(step, Err):
+            return f"node: step {n}: evaluating the tree raised {step.kind} ({step.msg})"
+        for q, got in zip(c["queries"], step):
+            m = compare_view(c["tree"], D(q), got, "root", (), ov)
+            if m:
+                return f"edit: at step {n}, after {nupd} update(s) {[x for x in c['ops'][:n] if x['o'] == 'upd']}: {m}"
+    return None
+
+
 def oracle(c, o):
+    if c["op"] == "treeops":
+        return oracle_treeops(c, o)
     if c["op"] == "param":
         return oracle_param(c, o)
     if isinstance(o, Err):
@@ -444,6 +564,9 @@ def nontrivial(c, o):
         return False
     if c["op"] == "param":
         return any(not isinstance(s, Err) for s in o[1:])
+    if c["op"] == "treeops":
+        reads = [s for s in o if isinstance(s, list)]
+        return any(a != b for a, b in zip(reads, reads[1:]))
     return tree_flips(c["tree"], [D(q) for q in c["queries"]])
 
 
@@ -464,6 +587,12 @@ def rel(x, dates):
 def classify(c, o):
     if c["op"] == "tree":
         return "tree"
+    if c["op"] == "treeops":
+        if isinstance(o, Err):
+            return "treeops:refused"
+        where = sorted({"scale" if op["path"][-1][0] == "b" else ("nested" if len(op["path"]) > 1 else "top")
+                        for op in c["ops"] if op["o"] == "upd"})
+        return "treeops:" + "+".join(where)
     if isinstance(o, Err):
         return "param:refused:" + o.kind
     if not c["ups"]:
@@ -735,6 +864,61 @@ def gen_tree_case(rng):
     return {"op": "tree", "tree": tree, "queries": qs}
 
 
+def tree_leaves(t, key, acc):
+    """Paths of all leaves (as lists, JSON-able)."""
+    if t["t"] == "param":
+        acc.append(list(key))
+    elif t["t"] == "node":
+        for n, c in t["children"]:
+            tree_leaves(c, key + [["c", n]], acc)
+    else:
+        for i, b in enumerate(t["brackets"]):
+            for f in ("threshold", "rate", "amount", "average_rate"):
+                if b.get(f) is not None:
+                    acc.append(key + [["b", i, f]])
+    return acc
+
+
+def gen_treeops_case(rng):
+    base = rng.choice(BASES[:7])
+    lo = O(base)
+    pool = list(range(lo, lo + 30)) if rng.random() < 0.7 else month_dates(rng, base)[:30]
+    while True:
+        tree = gen_node(rng, pool, 0)
+        leaves = tree_leaves(tree, [], [])
+        if leaves:
+            break
+    nested = [p for p in leaves if len(p) > 1]
+    dates = sorted(tree_dates(tree, set())) or [lo]
+    ops = [{"o": "read"}] if rng.random() < 0.9 else []
+    must = set()
+    for _ in range(rng.choice([1, 1, 2, 2, 3, 4])):
+        for _ in range(rng.choice([1, 1, 1, 2])):
+            path = rng.choice(nested) if nested and rng.random() < 0.4 else rng.choice(leaves)
+            r = rng.random()
+            if r < 0.04:
+                a = iso(rng.choice(dates))
+                u = {"period": ["day", a, 3, False], "start": a, "stop": None, "v": 1}            # refused
+            elif r < 0.07:
+                u = {"period": None, "start": None, "stop": iso(rng.choice(dates)), "v": 1}        # refused
+            else:
+                u = gen_update(rng, dates, pool[0] - 3, pool[-1] + 4, "days", ill=False)
+                if path[-1][0] == "b" and u["v"] is not None and rng.random() < 0.7:
+                    u["v"] = rng.choice([0, 0.25, 0.5, 1, 10, 50, 100])
+            bs = boundaries(u)
+            dates = sorted(set(dates) | set(bs))
+            if bs:
+                must.add(bs[0])                                                                    # a date inside the span
+            ops.append({"o": "upd", "path": path, "u": u})
+        ops.append({"o": "read"})
+    qs = queries_for(dates, rng, far=False)
+    keep = {iso(x) for x in must}
+    if len(qs) > 12:
+        rest = [q for q in qs if q not in keep]
+        qs = sorted(set(rng.sample(rest, max(0, 12 - len(keep)))) | (keep & set(qs)))
+    return {"op": "treeops", "tree": tree, "ops": ops, "queries": qs or [base]}
+
+
 def check_date_order(cases):
     """The trusted-base line about ISO strings, re-checked on the dates of this run."""
     ds = set()
@@ -753,6 +937,8 @@ def generate(rng, tier):
     cases = [gen_param_case(rng) for _ in range(n_param)]
     cases += [gen_param_case(rng, malformed=True) for _ in range(n_bad)]
     cases += [gen_tree_case(rng) for _ in range(n_tree)]
+    n_ops = {"quick": 500, "escalated": 1500, "thorough": 10000}[tier]
+    cases += [gen_treeops_case(rng) for _ in range(n_ops)]
     check_date_order(cases)
     return cases
 
@@ -771,6 +957,12 @@ def with_queries(c):
 
 
 def neighbours(c, rng):
+    if c["op"] == "treeops":
+        out = []
+        upds = [op for op in c["ops"] if op["o"] == "upd"]
+        for u in upds:
+            out.append(dict(c, ops=[{"o": "read"}, u, {"o": "read"}]))
+        return out + [gen_treeops_case(rng) for _ in range(10)]
     if c["op"] != "param":
         return [gen_tree_case(rng) for _ in range(10)]
     out = []
@@ -787,7 +979,31 @@ def neighbours(c, rng):
     return out
 
 
+def shrink_treeops(c, still_fails):
+    cur = c
+    progress = True
+    while progress:
+        progress = False
+        i = 0
+        while i < len(cur["ops"]):
+            cand = dict(cur, ops=cur["ops"][:i] + cur["ops"][i + 1:])
+            if cand["ops"] and still_fails(cand):
+                cur, progress = cand, True
+            else:
+                i += 1
+        i = 0
+        while len(cur["queries"]) > 1 and i < len(cur["queries"]):
+            cand = dict(cur, queries=cur["queries"][:i] + cur["queries"][i + 1:])
+            if still_fails(cand):
+                cur, progress = cand, True
+            else:
+                i += 1
+    return cur
+
+
 def shrink(c, still_fails):
+    if c["op"] == "treeops":
+        return shrink_treeops(c, still_fails)
     if c["op"] != "param":
         return None
     cur = c
